@@ -8,7 +8,7 @@ RULE = ("histories of 1..4 (thorough: ..10) successive assignments t[key] = valu
         "key = per-mode int (negative allowed) | slice (clipped, steps 1..3, possibly empty), optionally with an Ellipsis or trailing "
         "entries dropped; value = Python/NumPy/torch scalar | dense ndarray | torch tensor | compressed tensor (any format) of the "
         "selected shape. After every assignment the tensor is compared with a dense shadow array (NumPy assignment); after a raised "
-        "error the tensor must be unchanged. distinct = (format signature, shape, key kinds, value kind); non-trivial as usual")
+        "error the tensor must be unchanged; 15% of the dense-value steps first try a value of ANOTHER shape (axes permuted, the length-1 axis moved/dropped/added, flattened, one extent off by one) that NumPy refuses to broadcast: it must raise and leave t unchanged. distinct = (format signature, shape, key kinds, value kind); non-trivial as usual")
 TRUSTED = ["NumPy basic-index assignment as oracle", "float rounding (1e-9 scaled)"]
 ASSUMPTIONS = ["WFstd tensors; values have exactly the selected shape (no broadcasting of the value is required by the property)"]
 
@@ -142,6 +142,40 @@ def run_case(ctx, case):
                     val = arr if vk == "ndarray" else torch.tensor(arr, dtype=torch.float64)
                     mval = ("dense", arr)
                 newshadow = shadow.copy(); newshadow[pk] = arr
+                # ---- a value that is NOT of the selected shape and that NumPy cannot broadcast into it either: "cannot be honoured"
+                if mval is not None and mval[0] == "dense" and arr.size > 0 and vrng.random() < 0.15:
+                    sh = list(sshape)
+                    cands = []
+                    if len(sh) >= 2:
+                        cands.append(sh[1:] + sh[:1]); cands.append(sh[::-1])
+                    ones = [k for k, s_ in enumerate(sh) if s_ == 1]
+                    for k in ones:                       # the singleton axis somewhere else / dropped
+                        rest = sh[:k] + sh[k + 1:]
+                        for pos in range(len(rest) + 1):
+                            cands.append(rest[:pos] + [1] + rest[pos:])
+                    cands.append(sh + [1]); cands.append([int(np.prod(sh))])
+                    k = vrng.randrange(len(sh)); cands.append(sh[:k] + [sh[k] + 1] + sh[k + 1:])
+                    vrng.shuffle(cands)
+                    for wsh in cands:
+                        if list(wsh) == sh:
+                            continue
+                        warr = (arr.reshape(wsh) if int(np.prod(wsh)) == arr.size else np.ones(wsh))
+                        try:
+                            probe = shadow.copy(); probe[pk] = warr
+                            continue                     # NumPy broadcasts it: not an unambiguous error
+                        except ValueError:
+                            pass
+                        wval = warr if vk == "ndarray" else torch.tensor(warr, dtype=torch.float64)
+                        ctx.count("wrong_shape_value")
+                        r_ = safe(lambda: tt.__setitem__(pk, wval))
+                        after = safe(lambda: tt.torch().detach().double().numpy())
+                        unchanged = after[0] == "ok" and after[1].shape == shadow.shape and close(after[1], shadow, 1e-9)[0]
+                        if r_[0] != "err" or not unchanged:
+                            ctx.oracle("step %d: t[%s] = <%s of shape %s> into a selection of shape %s (NumPy: ValueError) %s%s" % (
+                                si, pk, vk, tuple(wsh), tuple(sh), "did not raise" if r_[0] != "err" else "raised",
+                                "" if unchanged else " and the tensor was modified"), case,
+                                cls={"op": "setitem", "predicate": "value of another shape accepted" if r_[0] != "err" else "error left tensor modified"})
+                        break
         before = from_tn(tt)
 
         def do():
